@@ -25,6 +25,10 @@ import time
 VERIF = os.path.dirname(os.path.dirname(os.path.abspath(__file__)))
 REPO = os.environ.get("VERIF_REPO", "/repo")
 BUILD = os.path.join(VERIF, "build")
+# VERIF_REPO / VERIF_OUT: run a check against a scratch copy of the repository
+# (e.g. a worktree with a seeded change) without touching /repo, /verif/evidence
+# or /verif/replay.  The registered commands never set them.
+OUT = os.environ.get("VERIF_OUT", VERIF)
 COQ = os.path.join(VERIF, "coq")
 GO = "go1.26"
 
@@ -256,11 +260,11 @@ class Check:
             "samples": [],
         }
         self.assumptions = []
-        self.work = os.path.join(BUILD, "run", pid)
+        self.work = os.path.join(BUILD if OUT == VERIF else OUT, "run", pid)
         shutil.rmtree(self.work, ignore_errors=True)
         os.makedirs(self.work, exist_ok=True)
-        os.makedirs(os.path.join(VERIF, "evidence"), exist_ok=True)
-        os.makedirs(os.path.join(VERIF, "replay"), exist_ok=True)
+        os.makedirs(os.path.join(OUT, "evidence"), exist_ok=True)
+        os.makedirs(os.path.join(OUT, "replay"), exist_ok=True)
         self.log = open(os.path.join(self.work, "check.log"), "w")
 
     # -- reporting ---------------------------------------------------------
@@ -282,7 +286,7 @@ class Check:
     def translate(self, needed=None):
         """Regenerate coq/Gen/*.v; `needed` = the generated files this property uses
         (None: all).  A failure for a file that is not needed is only a note."""
-        with Lock("coq"):
+        with Lock("coq-Gen"):
             return self._translate(needed)
 
     def _translate(self, needed):
@@ -321,6 +325,11 @@ class Check:
                 changed.append(f)
                 with open(oldp, "w") as o:
                     o.write(new)
+        gens = sorted(f for f in os.listdir(gen) if f.startswith("Gen_") and f.endswith(".v"))
+        cp = "-Q . GoPdf.Gen\n" + "".join(f + "\n" for f in gens)
+        cpp = os.path.join(gen, "_CoqProject")
+        if not os.path.exists(cpp) or open(cpp).read() != cp:
+            open(cpp, "w").write(cp)
         if changed:
             self.notes.append("translator output changed: " + ", ".join(changed))
             self.say("translator: regenerated", ", ".join(changed))
@@ -330,15 +339,15 @@ class Check:
     # -- coq ---------------------------------------------------------------
     def coq(self, projects, prop_project, prop_file, timeout=1500):
         """Build `projects` (+deps), lint, re-check prop_file, collect assumptions."""
-        with Lock("coq"):
-            return self._coq(projects, prop_project, prop_file, timeout)
+        return self._coq(projects, prop_project, prop_file, timeout)
 
     def _coq(self, projects, prop_project, prop_file, timeout):
         order = project_closure(list(projects) + [prop_project])
         self.coq_projects = order
         ok = True
         for p in order:
-            rc, out = coq_make(p, timeout)
+            with Lock("coq-" + p):
+                rc, out = coq_make(p, timeout)
             self.log.write(out)
             if rc != 0:
                 ok = False
@@ -451,8 +460,19 @@ class Check:
 
     def _harness(self, pkg, race):
         hdir = os.path.join(VERIF, "harness")
+        bindir = os.path.join(BUILD, "bin")
+        if REPO != "/repo":
+            # scratch repository: build from a copy of the harness whose go.mod points at it
+            tag = hashlib.sha256(REPO.encode()).hexdigest()[:8]
+            alt = os.path.join(BUILD, "harness-" + tag)
+            shutil.rmtree(alt, ignore_errors=True)
+            shutil.copytree(hdir, alt)
+            gm = open(os.path.join(alt, "go.mod")).read().replace("=> /repo", "=> " + REPO)
+            open(os.path.join(alt, "go.mod"), "w").write(gm)
+            hdir = alt
+            bindir = os.path.join(BUILD, "bin-" + tag)
         shutil.copy(os.path.join(REPO, "go.sum"), os.path.join(hdir, "go.sum"))
-        exe = os.path.join(BUILD, "bin", pkg + ("-race" if race else ""))
+        exe = os.path.join(bindir, pkg + ("-race" if race else ""))
         os.makedirs(os.path.dirname(exe), exist_ok=True)
         cmd = [GO, "build", "-tags", "verif", "-o", exe]
         envx = {}
@@ -533,7 +553,7 @@ class Check:
 
     # -- decision ----------------------------------------------------------
     def finish(self, level="proof", assumptions=None, trusted=None, partial=None):
-        kf_path = os.path.join(VERIF, "known_findings.json")
+        kf_path = os.path.join(VERIF, "findings", self.pid + ".json")
         known = []
         if os.path.exists(kf_path):
             known = [
@@ -622,7 +642,7 @@ class Check:
             "wall_s": round(time.time() - self.t0, 2),
             "violations": violations,
         }
-        with open(os.path.join(VERIF, "evidence", self.pid + ".json"), "w") as o:
+        with open(os.path.join(OUT, "evidence", self.pid + ".json"), "w") as o:
             json.dump(ev, o, indent=1, sort_keys=True, default=str)
             o.write("\n")
         self.say(
@@ -643,7 +663,7 @@ class Check:
 
     def _replay(self, obj, tag):
         h = hashlib.sha256(json.dumps(obj, sort_keys=True, default=str).encode()).hexdigest()[:10]
-        path = os.path.join(VERIF, "replay", "%s-%s.json" % (self.pid, h))
+        path = os.path.join(OUT, "replay", "%s-%s.json" % (self.pid, h))
         with open(path, "w") as o:
             json.dump(obj, o, indent=1, default=str)
             o.write("\n")
